@@ -108,6 +108,37 @@ func TestC09ServerStream(t *testing.T) {
 				}
 				r.Class(fmt.Sprintf("stream top2bits=%d -> served", (hi*block)>>14))
 			}
+			// complete frames of every size class around the inbound buffer (1600) and up to the largest a
+			// 16-bit length can announce: STUN-framed (cookie) and ChannelData-framed, whole / in 1000-byte
+			// segments / byte-at-a-time, each followed by a valid Binding request on the same connection.
+			if shard == 1%n {
+				tx := w.NextTx()
+				binding := wire.New(wire.Binding, wire.Request, tx).Bytes()
+				lens := []int{0, 4, 1500, 1576, 1579, 1580, 1581, 1584, 1596, 1600, 1604, 3004, 0x7FFC, 0xFFFC, 0xFFFF}
+				for _, kind := range []string{"stun", "stun-no-cookie", "chandata", "chandata-unbound"} {
+					for _, l := range lens {
+						var frame []byte
+						switch kind {
+						case "stun", "stun-no-cookie":
+							frame = mk(0x0001, l, kind == "stun", l)
+						case "chandata":
+							frame = wire.ChannelData(0x4000, make([]byte, l), true)
+						default:
+							frame = wire.ChannelData(0x4abc, make([]byte, l), true)
+						}
+						for _, seg := range []int{0, 1000, 1} {
+							port++
+							cn := hostile(w, port, append(append([]byte{}, frame...), binding...), seg, false)
+							open = append(open, cn)
+							r.Evaluations++
+							if !flush(fmt.Sprintf("complete %s frame with declared length %d (seg=%d)", kind, l, seg)) {
+								return
+							}
+						}
+						r.Class(fmt.Sprintf("stream complete %s frame, %s inbound buffer -> served", kind, map[bool]string{true: "beyond", false: "within"}[len(frame) >= 1600]))
+					}
+				}
+			}
 			// every proper prefix of every valid message, whole and byte-at-a-time, closed and left open
 			if shard == 0 {
 				c := w.C["c2"]
